@@ -803,7 +803,7 @@ Section StructStep.
       destruct (assoc_in _ _ _ _ Ha) as [k' [Hk' Ek]]. apply ustr_eqb_eq in Ek. subst k'.
       destruct (each_ok_in _ _ _ _ He2 _ Hk') as [b Hb]. cbn beta iota in Hb.
       destruct (has_key nm m); [reflexivity|discriminate Hb]. }
-    unfold o_struct_props. rewrite Hm. cbn [of_opt rbind]. cbv zeta.
+    unfold o_struct_props, flatten_remainder, direct_wire_names. rewrite Hm. cbn [of_opt rbind]. cbv zeta.
     (* direct members *)
     assert (HD : forall qs, (forall q, In q qs -> In q ps) ->
       exists dl, filter_map_r (fun p =>
@@ -1634,7 +1634,7 @@ Section XStruct.
     assert (F1 : forall p nm x, In p ps -> wire_name p = Some nm -> In (nm, x) m -> exists kk, vrec (p_ty p) x = ROk kk).
     { intros p nm x Hp Hw Hin. destruct (each_ok_in _ _ _ _ He1 (nm, x) Hin) as [b Hb]. cbn beta iota in Hb.
       rewrite (Hnamed p nm Hp Hw) in Hb. apply rbind_ok in Hb. destruct Hb as [kk [Hk _]]. eauto. }
-    unfold o_struct_props. cbn [as_object of_opt rbind]. cbv zeta.
+    unfold o_struct_props, flatten_remainder, direct_wire_names. cbn [as_object of_opt rbind]. cbv zeta.
     assert (HD : forall qs, (forall q, In q qs -> In q ps) -> distinct (wire_names qs) = true ->
       exists dl mr, filter_map_r (fun p =>
           match wire_name p with
@@ -1971,3 +1971,42 @@ Lemma check_defaults_example :
   check_defaults re0 (Tcd (JStr (u "three"))) 3 2 = RErr /\
   check_defaults re0 (Tcd (JInt 3)) 3 2 = ROk tt /\ registered_generics re0 (Tcd (JInt 3)) 3 2 = [GU64].
 Proof. repeat split; vm_compute; reflexivity. Qed.
+
+(* ================================================================== the flattened remainder *)
+Lemma in_direct_wire_names : forall ps k, In k (direct_wire_names ps) <-> exists p, In p ps /\ wire_name p = Some k.
+Proof.
+  intros ps k. unfold direct_wire_names. rewrite in_flat_map. split.
+  - intros [p [Hp Hk]]. exists p. split; [exact Hp|]. destruct (wire_name p); [destruct Hk as [<-|[]]; reflexivity|destruct Hk].
+  - intros [p [Hp Hw]]. exists p. split; [exact Hp|]. rewrite Hw. now left.
+Qed.
+
+(* what value_for_struct_props hands to the flattened members is EXACTLY the entries whose key is not the serialized
+   (wire) name -- the rename when there is one, not the Rust field identifier -- of a direct member *)
+Lemma flatten_remainder_spec : forall ps m k x,
+  In (k, x) (flatten_remainder ps m) <-> In (k, x) m /\ forall p, In p ps -> wire_name p <> Some k.
+Proof.
+  intros ps m k x. unfold flatten_remainder. rewrite filter_In. split.
+  - intros [Hin Hn]. split; [exact Hin|]. intros p Hp Hw. apply negb_true_iff in Hn.
+    assert (mem_ustr k (direct_wire_names ps) = true) by (apply mem_ustr_in; apply in_direct_wire_names; eauto). congruence.
+  - intros [Hin Hn]. split; [exact Hin|]. apply negb_true_iff. destruct (mem_ustr k (direct_wire_names ps)) eqn:E; [|reflexivity].
+    exfalso. apply mem_ustr_in in E. apply in_direct_wire_names in E. destruct E as [p [Hp Hw]]. exact (Hn p Hp Hw).
+Qed.
+
+(* regression example (seeded change: the remainder was computed from the Rust field names): Headers {
+   #[serde(rename = "content-type")] content_type: Option<String>, #[serde(flatten)] extra: Map<String, String> } with
+   the default {"content-type": "text/plain", "x-extra": "1"}: only "x-extra" goes to `extra` *)
+Definition Thd : space := mk_space [
+  (1, ent DString);
+  (2, ent (DOption 1));
+  (3, ent (DMap 1 1));
+  (4, ent (DStruct (u "Headers") None
+        [mkProp (u "content_type") (RRename (u "content-type")) POptional 2;
+         mkProp (u "extra") RFlatten PRequired 3] false))
+]%N.
+Lemma flatten_remainder_example :
+  flatten_remainder [mkProp (u "content_type") (RRename (u "content-type")) POptional 2; mkProp (u "extra") RFlatten PRequired 3]
+    [(u "content-type", JStr (u "text/plain")); (u "x-extra", JStr (u "1"))] = [(u "x-extra", JStr (u "1"))] /\
+  output_value Thd 4 4 (JObj [(u "content-type", JStr (u "text/plain")); (u "x-extra", JStr (u "1"))]) =
+    ROk (EStruct (u "Headers") [(FId (u "content_type"), ESome (EStr (u "text/plain")));
+                                (FId (u "extra"), EMap [(EStr (u "x-extra"), EStr (u "1"))])]).
+Proof. split; vm_compute; reflexivity. Qed.
